@@ -348,6 +348,7 @@ func c18Run(c *engine.Ctx, in []byte, args map[string]string) {
 }
 
 var c18ExtraSeeds = []string{
+	"let [...r] = x", "function f([...r]){}", "([...r]) => 0", "try{}catch([...r]){}", "({k:[...r]} = x)", "let {...s} = x", "function g(...r){}", "let [,...r]=x", "for(const [...r] of x);",
 	"class A { [k]() {} #p = 1; static #q() {} get [a+b]() {} set x(v) {} 'str'() {} 1() {} f = g; static [h] = i; async *[m]() {} #p2; static { s = 1; } }",
 	"x = { [k]() {}, get [a]() {}, set b(v) {}, async *c() {}, d, e: f, ...g, 'h': 1, [i]: j, k = 1 }",
 	"x = class { static a; #b; [c] = d; }; y = class Z extends W {};",
